@@ -346,8 +346,9 @@ Proof.
   rewrite H. destruct (g t x) as [y|e| |]; try reflexivity. rewrite IH. reflexivity.
 Qed.
 
-(* the two fixpoints have convertible bodies (none_echo, kw_step, map_step unfold to the text of Core.mar) *)
-Lemma mar_is_marG rt E : forall m T x, mar rt E m T x = marG rt E none_echo m T x.
+(* Core.mar (NoneTypeMarshaller arm since /repo ae6ba7e) and mar_fixed have convertible fixpoint bodies
+   (none_m, kw_step, map_step unfold to the text of Core.mar) *)
+Lemma mar_is_marG rt E : forall m T x, mar rt E m T x = mar_fixed rt E m T x.
 Proof. intros m T x. reflexivity. Qed.
 
 (* ------------------------------------------------------------------ instances: is_wire *)
@@ -448,25 +449,6 @@ Proof.
   - exact HF.
 Qed.
 
-(* Core.mar as it stands: none_ok = false, i.e. no NoneType member where a union (or a robust definition) hands
-   an arbitrary input to it *)
-Lemma current_wire_valid : Laws -> forall T, fully_annotated E robust_leaf wire_leaf false R F T ->
-  forall m n v w, valid rt E leaf_valid n T v = true -> mar rt E m T v = Ok w -> wire w = true.
-Proof.
-  intros L T (HR & HF & HT) m n v w. rewrite mar_is_marG. revert HT.
-  apply (marG_valid rt E none_echo (fun w => wire w = true) robust_leaf wire_leaf false R F leaf_valid).
-  - intros s x w0. apply (law_robust _ _ _ _ _ _ _ L).
-  - discriminate.
-  - apply none_is_wire. exact L.
-  - reflexivity.
-  - apply wire_seq.
-  - apply wire_dict.
-  - exact HR.
-  - intros s x w0. apply (law_wire _ _ _ _ _ _ _ L).
-  - intros x w0 Hx Hw. injection Hw as <-. apply none_is_wire; assumption.
-  - exact HF.
-Qed.
-
 (* freshness: holds for every annotation and every input, no law needed *)
 Lemma robust_all : forall T, robust_ty (fun _ => true) true (fun _ => true) T = true.
 Proof.
@@ -507,6 +489,16 @@ Lemma fixed_shape : Laws -> forall T, fully_annotated E robust_leaf wire_leaf tr
   forall m n v w, valid rt E leaf_valid n T v = true -> mar_fixed rt E m T v = Ok w -> only_list_dict w = true.
 Proof.
   intros L T HT m n v w HV HM. eapply wire_only_list_dict. eapply fixed_wire_valid; eauto.
+Qed.
+
+(* the statement at full strength, about Core.mar itself *)
+Lemma full_holds : Laws -> forall T, fully_annotated E robust_leaf wire_leaf true R F T ->
+  forall m n v w, valid rt E leaf_valid n T v = true -> mar rt E m T v = Ok w ->
+                  wire w = true /\ built rt w.
+Proof.
+  intros L T HT m n v w HV HM. rewrite mar_is_marG in HM. split.
+  - eapply fixed_wire_valid; eauto.
+  - eapply fixed_built; eauto.
 Qed.
 
 Lemma fixed_deterministic : forall m T x w1 w2,
